@@ -756,3 +756,76 @@ def rule_tokenglue(ctx, prop: str) -> RuleResult:
         raise AnalysisError(f"TOKENGLUE: expected the two unary-minus emitters (comp_e, comp_cir) in the C emitter, found {n} — idiom changed, checker blind")
     res.floor = 2
     return res
+
+
+EXT = "src/exo/libs/externs.py"
+
+
+def rule_externname(ctx, prop: str) -> RuleResult:
+    """An extern's `globl(prim_type)` is emitted once per precision the extern is used at.  If it
+    DEFINES a C function whose signature mentions `prim_type`, the function's name must mention
+    it too (`_relu_{prim_type}`, `_select_{prim_type}`): otherwise a library that uses the extern
+    at f32 and at f64 contains `float f(float)` and `double f(double)` — conflicting definitions,
+    not C.  `compile()` must call the name `globl()` defines."""
+    import re as _re
+
+    ix = ctx.ix
+    res = RuleResult("EXTERNNAME")
+    m = ix.module(EXT)
+    n_ext = 0
+    for c in sorted(m.classes.values(), key=lambda c: c.node.lineno):
+        g = c.methods.get("globl")
+        comp = c.methods.get("compile")
+        if g is None or comp is None:
+            continue
+        ps = [a for a in g.params() if a != "self"]
+        if not ps:
+            continue
+        pt = ps[0]
+        n_ext += 1
+        res.analysed.append(f"{EXT}:{c.name}.globl")
+        # flatten every string built in globl into a template: literal text with {prim_type} marks
+        tmpl = ""
+        for n in g.body_nodes():
+            if isinstance(n, ast.JoinedStr):
+                for v in n.values:
+                    if isinstance(v, ast.Constant):
+                        tmpl += str(v.value)
+                    elif isinstance(v, ast.FormattedValue):
+                        tmpl += "\x00" if ast.unparse(v.value) == pt else "\x01"
+                tmpl += "\n"
+        defs = _re.findall(r"\x00\s+([A-Za-z_\x00][A-Za-z_0-9\x00]*)\s*\(", tmpl)
+        res.instances += 1
+        if not defs:
+            res.ob(True)
+            continue
+        res.nontrivial += 1
+        for name in defs:
+            ok = "\x00" in name
+            res.ob(ok)
+            shown = name.replace("\x00", "{" + pt + "}")
+            res.sample(f"{c.name}.globl defines `{shown}` — the name carries the precision: {ok}")
+            if not ok:
+                res.add(Finding("EXTERNNAME", EXT, g.lineno, f"{c.name}.globl", f"def:{shown}",
+                                f"{c.name}.globl defines `{{{pt}}} {shown}({{{pt}}} ...)`: the signature depends on the precision but the name does not. A library that uses the extern at two "
+                                f"precisions contains `float {shown}(float)` and `double {shown}(double)` — conflicting definitions that no C compiler accepts"))
+            # compile() calls the defined name
+            ctmpl = ""
+            for n in comp.body_nodes():
+                if isinstance(n, ast.JoinedStr):
+                    cps = [a for a in comp.params() if a != "self"]
+                    cpt = cps[-1] if cps else pt
+                    for v in n.values:
+                        if isinstance(v, ast.Constant):
+                            ctmpl += str(v.value)
+                        elif isinstance(v, ast.FormattedValue):
+                            ctmpl += "\x00" if ast.unparse(v.value) == cpt else "\x01"
+            res.instances += 1
+            ok2 = ctmpl.lstrip().startswith(name + "(")
+            res.ob(ok2)
+            if not ok2:
+                res.add(Finding("EXTERNNAME", EXT, comp.lineno, f"{c.name}.compile", f"call:{shown}", f"{c.name}.compile does not call the function `{shown}` that globl defines"))
+    if n_ext < 6:
+        raise AnalysisError(f"EXTERNNAME: expected >= 6 externs with globl/compile in libs/externs.py, found {n_ext}")
+    res.floor = 6
+    return res
